@@ -186,7 +186,8 @@ def image_token(img) -> dict:
     t = snap(np.asarray(img.img), "img")
     md = img.metadata()
     for k in sorted(md):
-        v = md[k]
+        # the attribute itself, not what metadata() reports about it (metadata() is code under test)
+        v = getattr(img, k) if hasattr(img, k) else md[k]
         if isinstance(v, np.ndarray):
             v = np.asarray(v, dtype=float)  # Coordinate subclasses: compare values
         snap(v, "meta." + k, t)
@@ -197,7 +198,7 @@ def reload_token(img, keys) -> dict:
     t = snap(np.asarray(img.img), "img")
     md = img.metadata()
     for k in keys:
-        v = md[k] if k in md else getattr(img, k, "<missing>")
+        v = getattr(img, k) if hasattr(img, k) else md.get(k, "<missing>")
         if isinstance(v, np.ndarray):
             v = np.asarray(v, dtype=float)
         snap(v, "meta." + k, t)
@@ -215,14 +216,31 @@ def textured(shape, seed, chan=3, dtype="uint8"):
     return a.astype(dtype)
 
 
+def scene(shape, seed):
+    """Synthetic photograph with strong corners (ORB features): filled rectangles and discs on a grey canvas."""
+    g = np.random.default_rng(95_500 + seed)
+    h, w = shape
+    a = np.full((h, w, 3), 90, np.uint8)
+    for _ in range(40):
+        x, y = int(g.integers(0, w - 10)), int(g.integers(0, h - 10))
+        dx, dy = int(g.integers(6, 30)), int(g.integers(6, 30))
+        col = tuple(int(v) for v in g.integers(0, 256, 3))
+        if g.random() < 0.6:
+            cv2.rectangle(a, (x, y), (x + dx, y + dy), col, -1)
+        else:
+            cv2.circle(a, (x, y), int(dx / 2), col, -1)
+    return a
+
+
 def build_correction(spec):
+    cv2.setRNGSeed(777)  # RNG seam: construction may run OpenCV's k-means (colour checker swatches)
     k = spec["kind"]
     if k == "type":
         T = {"float": float, "float32": np.float32, "float64": np.float64, "uint8": np.uint8, "uint16": np.uint16,
              "bool": bool}[spec["data_type"]]
         return darsia.TypeCorrection(T)
     if k == "drift":
-        base = textured(spec["shape"], spec["base"])
+        base = scene(spec["shape"], spec["base"])
         cfg = {}
         if spec.get("roi"):
             cfg["roi"] = tuple(slice(a, b) for a, b in spec["roi"]) if spec["roi_form"] == "slices" else \
@@ -237,6 +255,8 @@ def build_correction(spec):
         kw = {}
         if spec.get("interpolation_order") is not None:
             kw["interpolation_order"] = spec["interpolation_order"]
+        if spec.get("resize_factor") is not None:
+            kw["resize_factor"] = spec["resize_factor"]
         with warnings.catch_warnings():
             warnings.simplefilter("ignore")
             return darsia.CurvatureCorrection(config=copy.deepcopy(spec["config"]), **kw)
@@ -261,13 +281,23 @@ def build_correction(spec):
     raise HarnessError(k)
 
 
-def correction_input(spec):
+PROBES = ["std", "flat", "alt"]
+
+
+def correction_input(spec, probe="std"):
+    """Probe inputs: 'std' the standard input, 'flat' a featureless constant frame, 'alt' another input."""
+    if probe == "flat":
+        x = correction_input(spec, "std")
+        return np.full_like(x, 90 if x.dtype.kind in "ui" else 0.35)
+    if probe == "alt":
+        spec = {**spec, "input": spec.get("input", 0) + 1, "dx": -spec.get("dx", 2), "dy": spec.get("dy", 1) + 1}
     k = spec["kind"]
     if k == "type":
         return textured([6, 7], spec["input"], dtype=spec.get("input_dtype", "uint8"))
     if k == "drift":
-        base = textured(spec["shape"], spec["base"])
-        return np.roll(base, (spec.get("dy", 1), spec.get("dx", 2)), axis=(0, 1))
+        base = scene(spec["shape"], spec["base"])
+        Mt = np.array([[1, 0, spec.get("dx", 2)], [0, 1, spec.get("dy", 1)]], np.float32)
+        return cv2.warpAffine(base, Mt, (spec["shape"][1], spec["shape"][0]))
     if k == "curvature":
         return textured(spec["shape"], spec["input"], dtype=spec.get("input_dtype", "uint8"))
     if k == "illumination":
@@ -277,8 +307,8 @@ def correction_input(spec):
     raise HarnessError(k)
 
 
-def apply_correction(corr, spec):
-    x = correction_input(spec)
+def apply_correction(corr, spec, probe="std"):
+    x = correction_input(spec, probe)
     cv2.setRNGSeed(12345 + spec.get("input", 0))  # RNG seam: OpenCV's k-means / RANSAC draw from cv::theRNG
     np.random.seed(4321)
     with warnings.catch_warnings():
@@ -291,6 +321,13 @@ def apply_correction(corr, spec):
             return ("ok", snap(np.asarray(corr(x)), "out"))
         except Exception as e:  # noqa
             return ("exc", type(e).__name__)
+
+
+def apply_probes(corr, spec, order):
+    """Outputs of the correction for every probe input, applied in the given order (a correction must not
+    depend on what it has seen before: the stored object and the reloaded one see the probes in different orders)."""
+    probes = PROBES if spec["kind"] != "color" else ["std", "alt"]
+    return {p: apply_correction(corr, spec, p) for p in order if p in probes}
 
 
 # ----------------------------------------------------------------------------- one segment, in a pristine fork
@@ -418,8 +455,11 @@ def run_segment(case, seg_steps, model, root, magick):
                     spec = case["corrections"][op["corr"]]
                     corr = build_correction(spec)
                     if op.get("use_first"):
-                        apply_correction(corr, spec)  # e.g. fills the curvature cache before saving
-                    res = apply_correction(corr, spec)
+                        # used before saving (fills e.g. the curvature cache); otherwise saved untouched and the
+                        # reference outputs come from a twin object
+                        res = apply_probes(corr, spec, ["std", "flat", "alt"])
+                    else:
+                        res = apply_probes(build_correction(spec), spec, ["std", "flat", "alt"])
                     key = norm_path(op["path"])
                     P = __import__("pathlib").Path(path if path.endswith(".npz") else path + ".npz")
                     try:
@@ -448,15 +488,18 @@ def run_segment(case, seg_steps, model, root, magick):
                             viol.append({"oracle": "C18.C", "culprit": f"{spec['kind']}:saved-correction-unreadable:{rexc}",
                                          "step": idx, "detail": {"correction": spec}})
                         else:
-                            res = apply_correction(corr, spec)
-                            if res != m["out"]:
-                                what = "raises" if res[0] != m["out"][0] else "output-differs"
+                            res = apply_probes(corr, spec, ["flat", "alt", "std"])
+                            bad = [p for p in res if res[p] != m["out"].get(p)]
+                            if bad:
+                                p0 = bad[0]
+                                what = "raises-or-not" if res[p0][0] != m["out"][p0][0] else "output-differs"
                                 viol.append({"oracle": "C18.C", "culprit": f"{spec['kind']}:reloaded-correction-{what}", "step": idx,
-                                             "detail": {"correction": spec, "original": _short(m["out"]), "reloaded": _short(res)}})
+                                             "detail": {"correction": spec, "probe": p0, "original": _short(m["out"][p0]),
+                                                        "reloaded": _short(res[p0])}})
                             else:
                                 cnt("probe:correction-roundtrip-verified(" + spec["kind"] + ")")
-                                if res[0] == "exc":
-                                    cnt("probe:correction-both-raised")
+                                if all(v[0] == "exc" for v in res.values()):
+                                    cnt("probe:correction-all-probes-raised")
             except HarnessError:
                 raise
             except OSError as e:
@@ -572,12 +615,12 @@ class C18Engine(Engine):
             return {"kind": k, "data_type": r.choice(["float", "float32", "float64", "uint8", "uint16", "bool"]),
                     "input": r.randint(0, 999), "input_dtype": r.choice(["uint8", "float64"]), "as_image": r.random() < 0.3}
         if k == "drift":
-            shape = [r.choice([48, 64]), r.choice([48, 64, 80])]
+            shape = [r.choice([140, 160]), r.choice([160, 200])]
             spec = {"kind": k, "shape": shape, "base": r.randint(0, 999), "dx": r.randint(-3, 3), "dy": r.randint(-3, 3),
                     "base_form": r.choice(["array", "image"]), "active": r.choice([None, True, False]),
                     "padding": r.choice([None, 0.0, 0.05])}
             if r.random() < 0.6:
-                spec["roi"] = [[r.randint(0, 8), shape[0] - r.randint(0, 8)], [r.randint(0, 8), shape[1] - r.randint(0, 8)]]
+                spec["roi"] = [[r.randint(0, 40), shape[0] - r.randint(0, 40)], [r.randint(0, 60), shape[1] - r.randint(0, 60)]]
                 spec["roi_form"] = r.choice(["slices", "points"])
             return spec
         if k == "curvature":
@@ -596,7 +639,8 @@ class C18Engine(Engine):
                                   "vertical_stretch": r.choice([0.0, 2e-4]), "vertical_center_offset": 0}
             return {"kind": k, "shape": [h, w], "config": cfg, "input": r.randint(0, 999),
                     "input_dtype": r.choice(["uint8", "float32"]),
-                    "interpolation_order": r.choice([None, None, None, 1, 0, 3]), "as_image": r.random() < 0.3}
+                    "interpolation_order": r.choice([None, None, None, 1, 0, 3]), "as_image": r.random() < 0.3,
+                    "resize_factor": r.choice([None, None, 0.5, 2.0])}
         if k == "illumination":
             return {"kind": k, "shape": [r.randint(3, 6), r.randint(3, 6)], "id": r.randint(0, 999), "input": r.randint(0, 999),
                     "colorspace": r.choice(["rgb", "rgb-scalar", "lab", "lab-scalar", "hsl", "hsl-scalar", "gray"])}
